@@ -149,8 +149,20 @@ void harness(void) {
 #else
 		LOCAL[n] = (uint8_t)(n == 3 ? 7 : 4 + n);   /* concrete local addresses (the extractors' terminator scans stay concrete) */
 #endif
+#ifdef MATCH
+		/* concrete identity map (one hex digit per node: 0 = not configured, 1 / 2 = board b1 / b2): which board a tree node
+		 * is steers the enumeration's control flow, so these shapes keep it concrete (the byte values stay symbolic) */
+		{ int m = (MATCH >> (4 * n)) & 0xF;
+		  if (m) { uint8_t cls = UID[n].class_id; bd[m - 1]->unique_id.product_id4 = (uint8_t)(0x10 * m + 1);
+		           bd[m - 1]->unique_id.class_id = cls; UID[n] = bd[m - 1]->unique_id; }
+		  else UID[n].product_id4 = (uint8_t)(0x30 + n); }
+#endif
 		for (int k = 0; k < n; k++) VASSUME(!uid_eq(UID[n], UID[k]));
 	}
+#ifdef MATCH
+	for (int b = 0; b < 2; b++) { bool used = false; for (int n = 0; n < NNODES; n++) if (((MATCH >> (4 * n)) & 0xF) == b + 1) used = true;
+	                              if (!used) bd[b]->unique_id.product_id4 = (uint8_t)(0x50 + b); }
+#endif
 	LOCAL[0] = 0;
 	VASSUME(LOCAL[1] != LOCAL[2]);
 	/* shape: A is an interface exactly in the trees where it has a child; leaves are not interfaces */
